@@ -193,7 +193,7 @@ def repo_tests_under_monitor(ctx, accept):
 
 HISTORIES = ["fresh", "fresh", "fresh", "solve_then_move_leaf", "solve_then_phase_conf", "solve_then_change_comp", "index_gaps",
              "identity_change_comp", "solve_then_retune", "solve_then_retune", "solve_then_phase_edit", "solve_then_phase_edit",
-             "solve_then_phase_edit", "solve_then_swap_leaves", "solve_then_rename"]
+             "solve_then_phase_edit", "solve_then_swap_leaves", "solve_then_rename", "analysed_while_built", "analysed_while_built"]
 
 
 def build_with_history(ctx, spec, mode, hseed, kw=None, prefer=None):
@@ -316,6 +316,20 @@ def build_with_history(ctx, spec, mode, hseed, kw=None, prefer=None):
                 so.set_sys_phases(P)
             ctx.count("history", mode)
             return eff, so
+    if mode == "analysed_while_built":
+        # the system is assembled call by call with reports requested in between (a designer inspecting the tree as it
+        # grows): every later call must see the structure as it is then, not as it was at the last report
+        first = spec["comps"][0]
+        so = ns.System(spec.get("name", "sys"), S.make_comp(ns, first), group=first.get("group", ""), rail=first.get("rail", ""))
+        for c in spec["comps"][1:]:
+            if rng.random() < 0.45:
+                analyse(so)
+            S.add_one(so, spec, c, ns)
+        if rng.random() < 0.5:
+            analyse(so)
+        S.apply_phase_conf(so, spec)
+        ctx.count("history", mode)
+        return spec, so
     if mode == "solve_then_swap_leaves":
         # two or three leaves are deleted and added again in the order of deletion: rustworkx hands out the freed node
         # indices last-freed-first, so the components come back on EACH OTHER'S indices (same names, same structure)
